@@ -43,8 +43,8 @@ BigCtx(c) ==
       [] c.fam = "exp" -> c.nbits > 4
 \* rounding a number under the active context: [v] or [err]
 MRound(c, x, st) ==
-    IF c.fam = "real" THEN Ok(x, st)
-    ELSE IF ~Small(x) THEN Er("OutOfDomain", st)
+    IF ~Small(x) THEN Er("OutOfDomain", st)          \* every value the machine holds stays small
+    ELSE IF c.fam = "real" THEN Ok(x, st)
     ELSE IF BigCtx(c) THEN
         \* a wide format (binary64 ...): every small dyadic value is a member
         (IF x.k # "fin" \/ IsDyadic(x) THEN Ok(x, st) ELSE Er("OutOfDomain", st))
